@@ -46,7 +46,7 @@ struct World {
 	// ---- log
 	bool handler_installed = false;
 	std::vector<std::string> log;               // messages of the current op (bounded)
-	long log_total = 0; long log_null = 0;
+	long log_total = 0; long log_null = 0; long log_fragments = 0; std::string log_fragment_first;
 	std::map<std::string, int> log_marks;       // marker substring -> count (current op)
 	// ---- alloc
 	unsigned fill_seed = 0; int fill_on = 0;
